@@ -24,4 +24,6 @@ package filepathext
 //@   site filepath.Base#1 ghost baseOf := result
 //@   site filepath.Ext#1 requires arg0 == path                                                                 [C19]
 //@   site filepath.Ext#1 ghost extOf := result
-//@   ensures result == (baseOf == extOf)                                                                       [C19]
+// ... and an extension has at least one character after the dot: "." and "dir/." name a DIRECTORY (--init . writes
+// ./Taskfile.yml), they are not a file name made of an extension only
+//@   ensures result == (baseOf == extOf && len(extOf) > 1)                                                     [C19]
